@@ -252,12 +252,20 @@ CLAIMED = {
             'into the unit-circle frame of the ellipse predicate, splits '
             'the image parallelogram into two triangles along a diagonal '
             'and scales the sum by the Jacobian rx*ry (triangle routine '
-            'stubbed); cached bbox/edges follow attribute re-assignment.',
+            'stubbed); cached bbox/edges follow attribute re-assignment. '
+            'End to end on the public classes (solver-enumerated lattice: 6 '
+            'shapes incl. annuli x centres x sizes x axis ratios x angles x '
+            '4 methods, plus 13 degenerate configurations): weights in '
+            '[0,1], exact sum = analytic area, center/subpixel weights = '
+            'fraction of sub-pixel centres inside, tight bounding box. Six '
+            'KNOWN-FINDINGs in the compiled exact ellipse kernel (a pixel '
+            'corner exactly on the curve / tangency), also found by a '
+            'symbolic harness of the real triangle routine.',
             'reals for floats (float64 sliver of from_float outside); exact '
-            'kernels: arc-area correctness (asin) not addressed, so "sums '
-            'to the analytic area" and weights in [0,1] for exact masks are '
-            'NOT claimed; Cython absent: .pyx analysed via validated '
-            'transliteration',
+            'kernels: arc-area correctness (asin) is decided only on the '
+            'lattice, not for symbolic inputs; Cython absent: .pyx analysed '
+            'via validated transliteration, kernel defects cannot be '
+            'repaired here',
             TECH + '; z3 NRA lemmas for the geometric side conditions'),
     'C10': ('3/C10',
             '(a) the frame condition (caller-held arrays hold the same '
